@@ -35,8 +35,15 @@ def main():
                         "first_violation": viol[0] if viol else None, "wall_s": int(time.time() - t),
                         "summary": meta.get("summary", "")[:300]}
         print(sid, results[sid]["caught"], rc, int(time.time() - t), flush=True)
-        with open(RES, "w") as f:
-            json.dump(results, f, indent=1, sort_keys=True)
+        # several sweeps over disjoint IDs may run at the same time: merge under a lock
+        import fcntl
+        with open(RES + ".lock", "w") as lk:
+            fcntl.flock(lk, fcntl.LOCK_EX)
+            cur = json.load(open(RES)) if os.path.exists(RES) else {}
+            cur[sid] = results[sid]
+            with open(RES + ".tmp", "w") as f:
+                json.dump(cur, f, indent=1, sort_keys=True)
+            os.replace(RES + ".tmp", RES)
 
 
 if __name__ == "__main__":
